@@ -51,9 +51,13 @@ def scenario_phylo():
         {'id': 'q_theta', 'type': 'Distribution', 'distribution': 'torch.distributions.Normal', 'x': 'theta_unc',
          'parameters': {'loc': {'id': 'q_loc', 'type': 'Parameter', 'tensor': [0.1]},
                         'scale': {'id': 'q_scale', 'type': 'Parameter', 'tensor': [0.5]}}},
-        {'id': 'joint', 'type': 'JointDistributionModel', 'distributions': ['like', 'coal', 'prior_kappa', 'tree']},
+        {'id': 'prior_kk', 'type': 'Distribution', 'distribution': 'torch.distributions.Gamma', 'x': 'kk',
+         'parameters': {'concentration': {'id': 'pkk_c', 'type': 'Parameter', 'tensor': [2.0]},
+                        'rate': {'id': 'pkk_r', 'type': 'Parameter', 'tensor': [0.5]}}},
+        {'id': 'kk_exp', 'type': 'TransformedParameter', 'transform': 'torch.distributions.ExpTransform', 'x': 'kk'},
+        {'id': 'joint', 'type': 'JointDistributionModel', 'distributions': ['like', 'coal', 'prior_kappa', 'prior_kk', 'tree']},
     ]
-    base = {'kk': [2.0, 5.0], 'theta_unc': [0.3], 'shape': [0.7], 'pinv': [0.2], 'freqs': [0.1, 0.2, 0.3, 0.4],
+    base = {'kk': [2.0, 5.0], 'pkk_c': [2.0], 'pkk_r': [0.5], 'theta_unc': [0.3], 'shape': [0.7], 'pinv': [0.2], 'freqs': [0.1, 0.2, 0.3, 0.4],
             'rate': [0.01], 'tree.ratios': [0.5], 'tree.root_height': [10.0], 'pk_mean': [1.0], 'pk_scale': [1.25],
             'q_loc': [0.1], 'q_scale': [0.5]}
     evaluators = {
@@ -71,6 +75,8 @@ def scenario_phylo():
         'kappa.tensor': lambda D: D['kappa'].tensor,
         'q_theta()': lambda D: D['q_theta'](),
         'clock.rates': lambda D: D['clock'].rates,
+        'prior_kk() [prior on the parent of the kappa view]': lambda D: D['prior_kk'](),
+        'kk_exp.tensor [transform of the parent of the kappa view]': lambda D: D['kk_exp'].tensor,
     }
     ops = {
         'assign ratios': ('assign', 'tree.ratios', (0.05, 0.95)),
@@ -294,8 +300,9 @@ def run_task(task, tr):
     from torchtree.core import model as coremodel
     from torchtree.core import parameter as coreparam
 
-    scen, history = task
-    label = f'{scen}: ' + ' ; '.join(history)
+    scen, history = task[0], task[1]
+    only = task[2] if len(task) > 2 else None
+    label = f'{scen}: ' + ' ; '.join(history) + (f' [only "{only}" is evaluated between updates]' if only else '')
     tr.fn(coreparam.Parameter.fire_parameter_changed, coreparam.TransformedParameter.handle_parameter_changed,
           coreparam.CatParameter.handle_parameter_changed, coreparam.ViewParameter.handle_parameter_changed,
           coremodel.CallableModel.__call__, coremodel.CallableModel.handle_parameter_changed,
@@ -318,6 +325,10 @@ def run_task(task, tr):
                              {'scenario': scen, 'history': [], 'parameter': pname})
                 return
         goals = []
+
+        if only:
+            # only ONE observer is evaluated between the updates (a flag cleared by another accessor is then never reset)
+            evaluators = {only: evaluators[only]}
 
         def evaluate(D):
             out = {}
@@ -377,15 +388,15 @@ def run_task(task, tr):
         tr.sample({'case': label, 'goals': len(goals), 'nontrivial': sum(1 for g in goals if g[1] != d.TRUE)})
 
         def replay(vals):
-            return replay_history(scen, history, vals)
+            return replay_history(scen, history, vals, only)
 
         # vacuity guard (solver): every update must be able to change some observed value, otherwise the
         # comparison with the fresh copy could not see a stale cache
         from symtorch.explore import prove
 
-        for step, oname, same in effect_checks:
+        for step, oname, same in ([] if only else effect_checks):
             st, r, _ = prove(d, dom + list(t.pcs), same, timeout=20, tr=tr, label='vacuity guard', parallel=True)
-            if st != 'refuted':
+            if st != 'refuted' and not only:
                 tr.inconc(f'{label}: vacuity guard: operation "{oname}" has no observable effect on any evaluated value ({st})')
 
         cm.discharge(tr, d, dom + twin_hyps + list(t.pcs), goals, label, replay=replay, varnodes=V, defined=False, timeout=30,
@@ -393,7 +404,7 @@ def run_task(task, tr):
 
 
 # ------------------------------------------------------------------ replay (plain tensors, real HKY p_t)
-def replay_history(scen, history, vals):
+def replay_history(scen, history, vals, only=None):
     from torchtree.core.utils import process_objects
     from torchtree.inference.mcmc import operator as opmod
 
@@ -406,6 +417,8 @@ def replay_history(scen, history, vals):
     import torchtree.evolution.tree_likelihood  # noqa
 
     spec, base, evaluators, ops = SCENARIOS[scen]()
+    if only:
+        evaluators = {only: evaluators[only]}
 
     def mk():
         dic = {}
@@ -489,6 +502,12 @@ def tasks_for(tier):
                 pairs = list(itertools.product(ops, ops))[::2][:24]
         for pr in pairs:
             ts.append((scen, pr))
+        # single-observer histories: the same update twice with only one model value read in between
+        evs = list(SCENARIOS[scen]()[2])
+        single = [e for e in evs if e.endswith('()')]
+        for o in ops:
+            for e in (single if tier == 'thorough' else single[:4]):
+                ts.append((scen, (o, o), e))
         if tier == 'thorough':
             triples = list(itertools.product(ops, ops, ops))
             step = max(1, len(triples) // 120)
